@@ -29,14 +29,15 @@ type profile struct {
 const shim = "verif/engine/"
 
 var (
-	timeRand = map[string]string{"time": shim + "vtime", "math/rand": shim + "vrand", "crypto/rand": shim + "vcrand"}
-	full     = map[string]string{"time": shim + "vtime", "math/rand": shim + "vrand", "crypto/rand": shim + "vcrand", "sync": shim + "vsync"}
+	timeRand   = map[string]string{"time": shim + "vtime", "math/rand": shim + "vrand", "crypto/rand": shim + "vcrand"}
+	full       = map[string]string{"time": shim + "vtime", "math/rand": shim + "vrand", "crypto/rand": shim + "vcrand", "sync": shim + "vsync"}
+	fullAtomic = map[string]string{"time": shim + "vtime", "math/rand": shim + "vrand", "crypto/rand": shim + "vcrand", "sync": shim + "vsync", "sync/atomic": shim + "vatomic"}
 )
 
 var profiles = map[string]profile{
-	"pkg/protocol":            {full, true},
+	"pkg/protocol":            {fullAtomic, true},
 	"pkg/common":              {full, true},
-	"apis/internal":           {full, true},
+	"apis/internal":           {fullAtomic, true},
 	"apis/client":             {full, true},
 	"apis/server":             {full, true},
 	"apis/common":             {full, true},
